@@ -11,7 +11,12 @@ import (
 // digits and semicolons.
 const ansiOSC = "\u001B\\][^\u0007\u001B]*(?:\u0007|\u001B\\\\)"
 
-const ansi = "(?:" + ansiOSC + ")|" +
+// ansiCSI is a control sequence in general (ECMA-48): ESC [ parameter bytes, intermediate bytes and
+// one final byte -- the general pattern below only knows some of the final bytes and no
+// intermediate bytes.
+const ansiCSI = "\u001B\\[[0-?]*[ -/]*[@-~]"
+
+const ansi = "(?:" + ansiOSC + ")|(?:" + ansiCSI + ")|" +
 	"[\u001B\u009B][[\\]()#;?]*(?:(?:(?:[a-zA-Z\\d]*(?:;[a-zA-Z\\d]*)*)?" +
 	"\u0007)|(?:(?:\\d{1,4}(?:;\\d{0,4})*)?[\\dA-PRZcf-ntqry=><~]))"
 
